@@ -50,7 +50,7 @@ const (
 
 // c42Case is the replayable description of one execution.
 type c42Case struct {
-	Kind   string   `json:"kind"`   // what transitions create: "file" or "dir" at path t; "gate": directories t and t2 in one call, held between the two changes until "release"; "pop": t is a directory populated with x and y, and the external edit "extchild" adds an unknown child t/z (so that a removal can succeed only partly); "macro": like "dir" but with the controller's habits as single events (sync = Scan+Transition, await = Poll+30 ms)
+	Kind   string   `json:"kind"`   // what transitions create: "file" or "dir" at path t; "gate": directories t and t2 in one call, held between the two changes until "release"; "root": the synchronization root itself is absent at the start and is created (as a directory holding a file, or as a file) and removed externally - no transitions; "pop": t is a directory populated with x and y, and the external edit "extchild" adds an unknown child t/z (so that a removal can succeed only partly); "macro": like "dir" but with the controller's habits as single events (sync = Scan+Transition, await = Poll+30 ms)
 	Events []string `json:"events"` // scan scanfull trans release poll cancel adv30 adv1s extedit extrev
 }
 
@@ -212,8 +212,10 @@ func newC42World(env *c42Env, kind string, res *c42Result, logger *logging.Logge
 	w.src = filepath.Join(env.base, "src")
 	os.RemoveAll(w.root)
 	os.RemoveAll(w.src)
-	if err := os.MkdirAll(w.root, 0o700); err != nil {
-		return nil, err
+	if kind != "root" { // variant "root" starts with the synchronization root absent
+		if err := os.MkdirAll(w.root, 0o700); err != nil {
+			return nil, err
+		}
 	}
 	if err := os.MkdirAll(w.src, 0o700); err != nil {
 		return nil, err
@@ -274,9 +276,32 @@ func (w *c42World) childAddable() bool {
 	return d[c42TPath] == "dir" && !hasZ
 }
 
+// rootEdits lists the external root-level edits possible now (variant "root").
+func (w *c42World) rootEdits() []string {
+	if _, err := os.Lstat(w.root); err != nil {
+		return []string{"mkroot", "fileroot"}
+	}
+	return []string{"rmroot"}
+}
+
 func (w *c42World) enabled() []string {
 	rev := w.lt != nil && w.lt.changed && !w.lt.reversed && !w.lt.touched
 	var out []string
+	if w.kind == "root" {
+		// No transitions: only the consumer's Scan/Poll, time, and the outside
+		// world creating / removing the root.
+		if w.polling {
+			out = append(out, "adv30", "adv1s")
+			out = append(out, w.rootEdits()...)
+			return w.dropRepeatedShortAdvance(append(out, "cancel"))
+		}
+		out = append(out, "scan", "scanfull")
+		if !w.notifiedSinceScan {
+			out = append(out, "poll")
+		}
+		out = append(out, "adv30", "adv1s")
+		return w.dropRepeatedShortAdvance(append(out, w.rootEdits()...))
+	}
 	if w.dead {
 		return nil
 	}
@@ -398,6 +423,26 @@ func (w *c42World) do(ev string) {
 		w.st.stamp(w.root)
 		w.tag("ext")
 		w.obs("extedit g -> state %d", w.gstate)
+	case "mkroot":
+		os.Mkdir(w.root, 0o700)
+		p := filepath.Join(w.root, c42GPath)
+		os.WriteFile(p, []byte("1"), 0o600)
+		w.st.stamp(p)
+		w.st.stamp(w.root)
+		w.tag("ext")
+		w.tag("root-created-dir")
+		w.obs("mkroot (directory with file g)")
+	case "fileroot":
+		os.WriteFile(w.root, []byte("root is a file"), 0o600)
+		w.st.stamp(w.root)
+		w.tag("ext")
+		w.tag("root-created-file")
+		w.obs("fileroot")
+	case "rmroot":
+		os.RemoveAll(w.root)
+		w.tag("ext")
+		w.tag("root-removed")
+		w.obs("rmroot")
 	case "extchild":
 		p := filepath.Join(w.root, c42TPath, "z")
 		os.WriteFile(p, []byte("unknown"), 0o600)
@@ -859,9 +904,9 @@ func isSubsequence(pat, h []string) bool {
 
 // c42Rank orders events for the canonical form of a minimal violating history.
 // c42EventNames is the event alphabet (index = compact encoding).
-var c42EventNames = []string{"scan", "scanfull", "trans", "release", "poll", "cancel", "adv30", "adv1s", "extedit", "extrev", "sync", "await", "extchild"}
+var c42EventNames = []string{"scan", "scanfull", "trans", "release", "poll", "cancel", "adv30", "adv1s", "extedit", "extrev", "sync", "await", "extchild", "mkroot", "fileroot", "rmroot"}
 
-var c42Rank = map[string]int{"scan": 0, "scanfull": 1, "trans": 2, "sync": 2, "release": 3, "adv30": 4, "adv1s": 5, "poll": 6, "await": 6, "cancel": 7, "extedit": 8, "extchild": 8, "extrev": 9}
+var c42Rank = map[string]int{"scan": 0, "scanfull": 1, "trans": 2, "sync": 2, "release": 3, "adv30": 4, "adv1s": 5, "poll": 6, "await": 6, "cancel": 7, "extedit": 8, "extchild": 8, "mkroot": 8, "fileroot": 8, "rmroot": 8, "extrev": 9}
 
 // minimiseC42 reduces a violating case to a canonical 1-minimal one: (1) greedy
 // delta debugging - remove single events while the case stays a valid history
@@ -926,7 +971,7 @@ func minimiseC42(t *testing.T, env *c42Env, c c42Case, clause string, runs *int6
 	// A history without transitions does not depend on the transition kind.
 	uses := false
 	for _, e := range cur {
-		if e == "trans" || e == "extrev" || e == "release" || e == "sync" || e == "await" || e == "extchild" {
+		if e == "trans" || e == "extrev" || e == "release" || e == "sync" || e == "await" || e == "extchild" || e == "mkroot" || e == "fileroot" || e == "rmroot" {
 			uses = true
 		}
 	}
@@ -974,19 +1019,19 @@ func TestC42(t *testing.T) {
 	// file variant costs a staging round per transition and adds nothing to the
 	// watch logic, so it runs one level shallower in the quick tier; depth 8 does
 	// not fit the 10 min thorough budget, 7 does).
-	depthOf := map[string]int{"macro": 5, "pop": 5, "dir": 6, "file": 5, "gate": 5}
+	depthOf := map[string]int{"macro": 5, "root": 5, "pop": 5, "dir": 6, "file": 5, "gate": 5}
 	if vr.Thorough() {
-		depthOf = map[string]int{"macro": 7, "pop": 7, "dir": 7, "file": 7, "gate": 7}
+		depthOf = map[string]int{"macro": 7, "root": 7, "pop": 7, "dir": 7, "file": 7, "gate": 7}
 	}
 	if s := os.Getenv("VERIF_C42_DEPTH"); s != "" { // for measuring tree sizes only
 		var d int
 		fmt.Sscan(s, &d)
-		depthOf = map[string]int{"macro": d, "pop": d, "dir": d, "file": d, "gate": d}
+		depthOf = map[string]int{"macro": d, "root": d, "pop": d, "dir": d, "file": d, "gate": d}
 	}
 	depth := depthOf["dir"]
-	kinds := []string{"macro", "pop", "dir", "file", "gate"}
+	kinds := []string{"macro", "root", "pop", "dir", "file", "gate"}
 	deadline := scaledDeadline(55*time.Second, 9*time.Minute)
-	r.Rule(fmt.Sprintf("every sequence of <= %d harness events (scan, scanfull, trans[create/delete t after staging], poll, cancel, adv30ms, adv1s, extedit[g: create/modify/delete], extrev[exact external reversal of the last transition]) that respects the Endpoint contract (one call outstanding, Transition only after a Scan), for t a directory (depth %d), t a file (depth %d), and a two-change transition (directories t and t2) held by a hook-layer gate between its two changes until a release event so that poll scans land inside it (depth %d), plus a controller-shaped variant whose events are whole habits (sync = Scan then Transition, await = Poll then 30 ms; depth %d, so it reaches much longer raw histories), and a variant whose target directory is populated (x, y) and can receive an unknown child t/z externally (event extchild) between Scan and Transition, so that its removal succeeds only partly (depth %d); histories are visited level by level (all variants of length d before any of length d+1); each history is a fresh bubble replayed from scratch; non-trivial = a Scan was judged after a disk-changing transition, or an external modification created a notification obligation; distinct by (kind, event list)", depth, depthOf["dir"], depthOf["file"], depthOf["gate"], depthOf["macro"], depthOf["pop"]))
+	r.Rule(fmt.Sprintf("every sequence of <= %d harness events (scan, scanfull, trans[create/delete t after staging], poll, cancel, adv30ms, adv1s, extedit[g: create/modify/delete], extrev[exact external reversal of the last transition]) that respects the Endpoint contract (one call outstanding, Transition only after a Scan), for t a directory (depth %d), t a file (depth %d), and a two-change transition (directories t and t2) held by a hook-layer gate between its two changes until a release event so that poll scans land inside it (depth %d), plus a controller-shaped variant whose events are whole habits (sync = Scan then Transition, await = Poll then 30 ms; depth %d, so it reaches much longer raw histories), and a variant whose target directory is populated (x, y) and can receive an unknown child t/z externally (event extchild) between Scan and Transition, so that its removal succeeds only partly (depth %d), and a variant without transitions in which the synchronization root itself starts absent and is created externally as a directory with a file (mkroot) or as a file (fileroot) and removed again (rmroot) (depth %d); histories are visited level by level (all variants of length d before any of length d+1); each history is a fresh bubble replayed from scratch; non-trivial = a Scan was judged after a disk-changing transition, or an external modification created a notification obligation; distinct by (kind, event list)", depth, depthOf["dir"], depthOf["file"], depthOf["gate"], depthOf["macro"], depthOf["pop"], depthOf["root"]))
 	r.Assume("real local endpoint, force-poll, 1 s interval, accelerated scanning, probe mode assume, staging in the data directory",
 		"granularity: harness events happen only at quiescence (synctest.Wait); interleavings inside one quiescence step and Go select choice are not owned (divergent_replays counts observed differences)",
 		"second sentence judged on what the consumer can see: while the disk differs from what the consumer was last told (Scan result + transition results) and no notification was delivered since it was told, a Poll must return within interval + 2 x coalescing window of virtual time from the last change of disk or belief; modifications undone before a poll could sample them, or already reported by a Scan, owe nothing",
